@@ -844,7 +844,207 @@ pub fn run(rng: &mut Rng, thorough: bool, corpus: &[String]) -> Run {
     cli_product(&mut run, rng, thorough);
     precedence(&mut run, rng, thorough);
     multi_target(&mut run);
+    item_tables(&mut run);
+    privilege_checks(&mut run);
     run
+}
+
+/// C16 ("an unsupported combination is rejected up front"): privileges.  (i) the acceptance matrix of
+/// `build_config` over privilege mode x has-privileges x platform-needs-privileges: privileged mode needs the
+/// privileges, unprivileged mode needs a platform that supports it; (ii) what `Privilege::discover()` reports for
+/// this process against the kernel's own account (`CapEff` bit 13 = CAP_NET_RAW in /proc/self/status; Linux has no
+/// unprivileged ICMP socket with IP_HDRINCL, so it always needs privileges); (iii) with the discovered privileges
+/// `--unprivileged` is refused on this platform.  Read-only: nothing is acquired or dropped.
+fn privilege_checks(run: &mut Run) {
+    let accepts = |unprivileged: bool, p: &Privilege| -> Option<bool> {
+        let mut a = base_args();
+        a.unprivileged = unprivileged;
+        guarded(|| verif_build_config(a, Sections::new().into_file(true), p, PID)).ok().map(|r| r.is_ok())
+    };
+    for unprivileged in [false, true] {
+        for has in [false, true] {
+            for needs in [false, true] {
+                run.count("privilege:matrix");
+                let want = if unprivileged { !needs } else { has };
+                let got = accepts(unprivileged, &Privilege::new(has, needs));
+                run.op(format!("cfgb priv {} {} {}", u8::from(unprivileged), u8::from(has), u8::from(needs)),
+                    match got { None => "panic", Some(true) => "ok", Some(false) => "err" }.to_string());
+                match got {
+                    None => run.fail("c16-build-config-panics", format!("unprivileged={unprivileged} has={has} needs={needs}")),
+                    Some(got) if got != want => run.fail("c16-privilege-matrix", format!(
+                        "unprivileged={unprivileged} has_privileges={has} needs_privileges={needs}: accepted={got}, expected {want}")),
+                    Some(_) => {}
+                }
+            }
+        }
+    }
+    if !cfg!(target_os = "linux") {
+        run.count("privilege:discover-skipped-not-linux");
+        return;
+    }
+    let cap_eff = std::fs::read_to_string("/proc/self/status").ok().and_then(|s| {
+        s.lines().find_map(|l| l.strip_prefix("CapEff:").and_then(|v| u64::from_str_radix(v.trim(), 16).ok()))
+    });
+    let (Some(cap_eff), Ok(p)) = (cap_eff, Privilege::discover()) else {
+        run.count("privilege:discover-unavailable");
+        return;
+    };
+    run.count("privilege:discover");
+    let truth_has = cap_eff & (1 << 13) != 0;
+    if p.has_privileges() != truth_has || !p.needs_privileges() {
+        run.fail("c16-privilege-discovery", format!(
+            "Privilege::discover() = (has {}, needs {}); the kernel says CAP_NET_RAW effective = {truth_has}, and Linux always needs privileges for raw ICMP",
+            p.has_privileges(), p.needs_privileges()));
+    }
+    if accepts(true, &p) == Some(true) {
+        run.fail("c16-privilege-discovery", format!(
+            "--unprivileged is accepted with the discovered privileges (has {}, needs {}) on a platform without unprivileged ICMP sockets",
+            p.has_privileges(), p.needs_privileges()));
+    }
+}
+
+/// top-level `field: value` pairs of a `Debug`-formatted struct (`Name { a: X, b: Y { .. }, .. }`)
+fn debug_fields(s: &str) -> Vec<(String, String)> {
+    let Some(open) = s.find('{') else { return vec![] };
+    let body = &s[open + 1..s.rfind('}').unwrap_or(s.len())];
+    let (mut out, mut depth, mut cur) = (vec![], 0i32, String::new());
+    let mut chars = body.chars();
+    while let Some(ch) = chars.next() {
+        match ch {
+            // a character literal (`Char('{')`): copied, not interpreted
+            '\'' => {
+                cur.push(ch);
+                if let Some(c1) = chars.next() {
+                    cur.push(c1);
+                    if c1 == '\\' { if let Some(c2) = chars.next() { cur.push(c2); } }
+                    if let Some(q) = chars.next() { cur.push(q); }
+                }
+            }
+            '{' | '(' | '[' => { depth += 1; cur.push(ch); }
+            '}' | ')' | ']' => { depth -= 1; cur.push(ch); }
+            ',' if depth == 0 => { out.push(std::mem::take(&mut cur)); }
+            _ => cur.push(ch),
+        }
+    }
+    if !cur.trim().is_empty() { out.push(cur); }
+    out.into_iter().filter_map(|f| f.split_once(':').map(|(k, v)| (k.trim().to_string(), v.trim().to_string()))).collect()
+}
+
+/// the `key = "value"` lines of one section of the documented sample configuration file
+fn sample_section(section: &str) -> Vec<(String, String)> {
+    let repo = std::env::var("VERIF_REPO").unwrap_or_else(|_| "/repo".into());
+    let Ok(text) = std::fs::read_to_string(format!("{repo}/trippy-config-sample.toml")) else { return vec![] };
+    let mut inside = false;
+    let mut out = vec![];
+    for line in text.lines() {
+        let l = line.trim();
+        if l.starts_with('[') { inside = l == format!("[{section}]"); continue; }
+        if !inside || l.starts_with('#') { continue; }
+        if let Some((k, v)) = l.split_once('=') {
+            out.push((k.trim().to_string(), v.trim().trim_matches('"').to_string()));
+        }
+    }
+    out
+}
+
+/// C16 for the two item tables that are layered outside `build_config`'s `cfg_layer` calls: the theme colours
+/// (`--tui-theme-colors item=colour`, `[theme-colors]`) and the key bindings (`--tui-key-bindings command=key`,
+/// `[bindings]`).  The items and their documented defaults are read from the repository's sample configuration
+/// file; for every item: nothing given => the documented default; file only => the file's value; command line
+/// only => its value; both => the command line's; and every *other* item keeps its default (independence).
+/// The effective values are read from the `Debug` rendering of `TuiTheme` / `TuiBindings`, field = item name
+/// (without the `-color` suffix for colours); an item whose field cannot be found that way is counted, not failed.
+fn item_tables(run: &mut Run) {
+    for (section, suffix, values) in [("theme-colors", "-color", ["red", "blue", "magenta"]), ("bindings", "", ["alt+x", "alt+y", "alt+w"])] {
+        let items = sample_section(section);
+        if items.is_empty() {
+            run.count(&format!("items:{section}:sample-file-unreadable"));
+            continue;
+        }
+        let render = |cli: Option<(&str, &str)>, file: Option<(&str, &str)>| -> Option<Vec<(String, String)>> {
+            let mut args = base_args();
+            let mut cf = Sections::new().into_file(true);
+            if let Some((k, v)) = cli {
+                if section == "theme-colors" {
+                    args.tui_theme_colors = vec![(k.parse().ok()?, TryFrom::try_from(v.to_string()).ok()?)];
+                } else {
+                    args.tui_key_bindings = vec![(k.parse().ok()?, TryFrom::try_from(v).ok()?)];
+                }
+            }
+            if let Some((k, v)) = file {
+                let text = format!("{k} = \"{v}\"\n");
+                if section == "theme-colors" {
+                    cf.theme_colors = Some(toml::from_str(&text).ok()?);
+                } else {
+                    cf.bindings = Some(toml::from_str(&text).ok()?);
+                }
+            }
+            match guarded(|| verif_build_config(args, cf, &privilege(), PID)) {
+                Ok(Ok(cfg)) => Some(debug_fields(&if section == "theme-colors" { dbg(&cfg.tui_theme) } else { dbg(&cfg.tui_bindings) })),
+                _ => None,
+            }
+        };
+        let Some(base) = render(None, None) else {
+            run.count(&format!("items:{section}:default-config-rejected"));
+            continue;
+        };
+        let field_of = |k: &str| k.strip_suffix(suffix).unwrap_or(k).replace('-', "_");
+        let lookup = |fields: &[(String, String)], f: &str| fields.iter().find(|(k, _)| k == f).map(|(_, v)| v.clone());
+        // the Debug text of a value given as documented text: through the command line at the item itself
+        for (k, documented) in &items {
+            let f = field_of(k);
+            let Some(default_shown) = lookup(&base, &f) else {
+                run.count(&format!("items:{section}:field-not-found:{k}"));
+                continue;
+            };
+            run.count(&format!("items:{section}"));
+            // value texts different from the documented default
+            let vs: Vec<&str> = values.iter().copied().filter(|v| v != documented).take(2).collect();
+            let (vf, vc) = (vs[0], vs[1]);
+            let shown = |v: &str| render(Some((k, v)), None).and_then(|r| lookup(&r, &f));
+            let cases: [(&str, Option<(&str, &str)>, Option<(&str, &str)>, Option<&str>); 4] = [
+                ("default", None, None, None),
+                ("file", None, Some((k, vf)), Some(vf)),
+                ("cli", Some((k, vc)), None, Some(vc)),
+                ("both", Some((k, vc)), Some((k, vf)), Some(vc)),
+            ];
+            // what the documented default looks like when given explicitly
+            if let Some(d) = shown(documented) {
+                if d != default_shown {
+                    run.fail("c16-item-default", format!("[{section}] {k}: nothing given => {default_shown}, the documented default \"{documented}\" is {d}"));
+                }
+            }
+            for (what, cli, file, want) in cases {
+                let Some(got) = render(cli, file) else {
+                    run.count(&format!("items:{section}:rejected"));
+                    continue;
+                };
+                run.count("items:checked");
+                if let Some(wv) = want {
+                    // the expected rendering of the value: the same text given the other way round (file <-> cli)
+                    let expect = if what == "file" { shown(wv) } else { render(None, Some((k, wv))).and_then(|r| lookup(&r, &f)) };
+                    let here = lookup(&got, &f);
+                    if here.as_deref() == Some(default_shown.as_str()) {
+                        run.fail("c16-item-precedence", format!("[{section}] {k} given as \"{wv}\" ({what}): the effective value is still the default {default_shown}"));
+                    } else if expect.is_some() && here != expect && what != "both" {
+                        run.fail("c16-item-precedence", format!("[{section}] {k} = \"{wv}\" ({what}): effective value {here:?}, the same text given the other way gives {expect:?}"));
+                    }
+                    if what == "both" {
+                        let cli_only = render(cli, None).and_then(|r| lookup(&r, &f));
+                        if here != cli_only {
+                            run.fail("c16-item-precedence", format!("[{section}] {k}: command line \"{vc}\" and file \"{vf}\": effective value {here:?}, command line alone gives {cli_only:?}"));
+                        }
+                    }
+                }
+                // independence: every other item keeps its default
+                for (of, ov) in &got {
+                    if *of != f && lookup(&base, of).as_ref() != Some(ov) {
+                        run.fail("c16-item-independence", format!("[{section}] {k} given ({what}): item field {of} changed from {:?} to {ov}", lookup(&base, of)));
+                    }
+                }
+            }
+        }
+    }
 }
 
 /// C03 / C16: UDP and TCP probes carry no trace identifier, so two tracers of one invocation could not tell their
